@@ -19,6 +19,9 @@ open PP.Regex PP.Regex.Re
 def IsDigit (c : Char) : Prop := '0' ≤ c ∧ c ≤ '9'
 def IsHexDigit (c : Char) : Prop := ('0' ≤ c ∧ c ≤ '9') ∨ ('a' ≤ c ∧ c ≤ 'f') ∨ ('A' ≤ c ∧ c ≤ 'F')
 def IsSign (c : Char) : Prop := c = '+' ∨ c = '-'
+instance (c : Char) : Decidable (IsDigit c) := by unfold IsDigit; infer_instance
+instance (c : Char) : Decidable (IsHexDigit c) := by unfold IsHexDigit; infer_instance
+instance (c : Char) : Decidable (IsSign c) := by unfold IsSign; infer_instance
 
 theorem has_digit_range (c : Char) : (CSet.mk false [.r '0' '9'] false).has c = true ↔ IsDigit c := by
   simp [CSet.has, Item.has, IsDigit]
@@ -232,5 +235,197 @@ theorem sgl_quoted_string_fact : Gen.Patterns.sgl_quoted_string_leaves.map (fun 
 theorem quoted_string_fact : Gen.Patterns.quoted_string_leaves.map (fun x => (x.1, (parse x.2.1).map (·.re))) =
     [("Regex", some (quotedBodyAst '"')), ("Literal", some (lit '"')),
      ("Regex", some (quotedBodyAst '\'')), ("Literal", some (lit '\''))] := by decide +kernel
+
+/-! ## real  (`Regex(r"[+-]?(?:\d+\.\d*|\.\d+)")`) -/
+
+theorem has_lit (a c : Char) : (CSet.mk false [.c a] false).has c = true ↔ c = a := by
+  simp [CSet.has, Item.has]
+
+/-- an optional sign in front of `b`, when `b` itself can never start with a sign -/
+theorem accepts_signOpt (b : Re) (hb : ∀ c t, IsSign c → b.ends (c :: t) = []) (s : List Char) :
+    (seq signOpt b).Accepts s ↔
+      ∃ sg x, s = sg ++ x ∧ (sg = [] ∨ ∃ c, IsSign c ∧ sg = [c]) ∧ b.Accepts x := by
+  unfold signOpt cls
+  rw [accepts_seq_opt_set]
+  cases s with
+  | nil =>
+    constructor
+    · intro h; exact ⟨[], [], rfl, Or.inl rfl, h⟩
+    · rintro ⟨sg, x, h, _, hx⟩
+      have : x = [] := by
+        have := congrArg List.length h; simp at this; exact List.eq_nil_of_length_eq_zero (by omega)
+      subst this; exact hx
+  | cons c t =>
+    simp only
+    by_cases hc : (CSet.mk false [.c '+', .c '-'] false).has c = true
+    · have hs := (has_sign c).1 hc
+      rw [if_pos hc, hb c t hs]
+      simp only [List.head?_nil, Option.or_none]
+      constructor
+      · intro h; exact ⟨[c], t, rfl, Or.inr ⟨c, hs, rfl⟩, h⟩
+      · rintro ⟨sg, x, h, hsg, hx⟩
+        rcases hsg with rfl | ⟨c', _, rfl⟩
+        · simp at h; subst h
+          unfold Re.Accepts at hx; rw [hb c t hs] at hx; simp at hx
+        · simp at h; obtain ⟨_, rfl⟩ := h; exact hx
+    · rw [if_neg hc]
+      constructor
+      · intro h; exact ⟨[], c :: t, rfl, Or.inl rfl, h⟩
+      · rintro ⟨sg, x, h, hsg, hx⟩
+        rcases hsg with rfl | ⟨c', hs', rfl⟩
+        · simp at h; subst h; exact hx
+        · simp at h; obtain ⟨rfl, _⟩ := h
+          exact absurd ((has_sign c).2 hs') hc
+
+/-- documented syntax of the unsigned part: digits '.' digits with at least one digit on one side -/
+def IsUReal (x : List Char) : Prop :=
+  ∃ a b, x = a ++ '.' :: b ∧ (∀ c ∈ a, IsDigit c) ∧ (∀ c ∈ b, IsDigit c) ∧ (a ≠ [] ∨ b ≠ [])
+
+/-- documented syntax: optional sign, then `digits.digits*` or `.digits` -/
+def IsReal (s : List Char) : Prop :=
+  ∃ sg x, s = sg ++ x ∧ (sg = [] ∨ ∃ c, IsSign c ∧ sg = [c]) ∧ IsUReal x
+
+theorem digit_ne_dot {c : Char} (h : IsDigit c) : c ≠ '.' := by
+  rintro rfl; revert h; unfold IsDigit; decide
+theorem sign_not_digit {c : Char} (h : IsSign c) : ¬ IsDigit c := by
+  intro hd; rcases h with h | h <;> (subst h; revert hd; unfold IsDigit; decide)
+theorem sign_ne_dot {c : Char} (h : IsSign c) : c ≠ '.' := by
+  rcases h with h | h <;> (subst h; decide)
+
+abbrev dset : CSet := ⟨false, [.d], false⟩
+
+theorem plus_digit_accepts (x : List Char) : (plus digit).Accepts x ↔ (x ≠ [] ∧ ∀ c ∈ x, IsDigit c) := by
+  unfold plus digit
+  rw [accepts_rep_set]
+  simp only [has_digit]
+  constructor
+  · rintro ⟨h1, h2⟩; exact ⟨by intro h; simp [h] at h1, h2⟩
+  · rintro ⟨h1, h2⟩; exact ⟨by cases x <;> simp_all, h2⟩
+
+theorem star_digit_accepts (x : List Char) : (star digit).Accepts x ↔ (∀ c ∈ x, IsDigit c) := by
+  unfold star digit
+  rw [accepts_rep_set]
+  simp only [has_digit]
+  simp
+
+theorem dotTail_noStart : ∀ c t, dset.has c = true → (seq (lit '.') (star digit)).ends (c :: t) = [] := by
+  intro c t h
+  unfold lit
+  rw [ends_seq_set]
+  have : ¬ (CSet.mk false [.c '.'] false).has c = true := by
+    rw [has_lit]; exact digit_ne_dot ((has_digit c).1 h)
+  simp [this]
+
+theorem ureal_ends_cons (c : Char) (t : List Char) :
+    urealPart.ends (c :: t) =
+      if c = '.' then (plus digit).ends t
+      else if IsDigit c then (seq (lit '.') (star digit)).ends ((c :: t).dropWhile dset.has)
+      else [] := by
+  unfold urealPart
+  show Re.ends (seq (plus digit) (seq (lit '.') (star digit))) (c :: t) ++ Re.ends (seq (lit '.') (plus digit)) (c :: t) = _
+  have hA : Re.ends (seq (plus digit) (seq (lit '.') (star digit))) (c :: t) =
+      if 1 ≤ ((c :: t).takeWhile dset.has).length then
+        (seq (lit '.') (star digit)).ends ((c :: t).dropWhile dset.has) else [] := by
+    unfold plus digit
+    exact ends_seq_rep_set_noStart dset _ 1 _ dotTail_noStart
+  have hB : Re.ends (seq (lit '.') (plus digit)) (c :: t) = if c = '.' then (plus digit).ends t else [] := by
+    unfold lit
+    rw [ends_seq_set]
+    simp only [has_lit]
+  rw [hA, hB]
+  by_cases hdot : c = '.'
+  · subst hdot
+    have : dset.has '.' = false := by decide
+    simp [List.takeWhile_cons, this]
+  · by_cases hd : IsDigit c
+    · have : dset.has c = true := (has_digit c).2 hd
+      simp [hdot, hd, List.takeWhile_cons, this]
+    · have : dset.has c = false := by
+        cases h : dset.has c with
+        | false => rfl
+        | true => exact absurd ((has_digit c).1 h) hd
+      simp [hdot, hd, List.takeWhile_cons, this]
+
+theorem ureal_noSign : ∀ c t, IsSign c → urealPart.ends (c :: t) = [] := by
+  intro c t h
+  rw [ureal_ends_cons, if_neg (sign_ne_dot h), if_neg (sign_not_digit h)]
+
+theorem ureal_language (x : List Char) : urealPart.Accepts x ↔ IsUReal x := by
+  cases x with
+  | nil =>
+    constructor
+    · intro h; unfold Re.Accepts urealPart at h; simp [Re.ends, plus, digit, lit, repEnds] at h
+    · rintro ⟨a, b, h, _⟩; simp at h
+  | cons c t =>
+    unfold Re.Accepts
+    rw [ureal_ends_cons]
+    by_cases hdot : c = '.'
+    · subst hdot
+      rw [if_pos rfl]
+      show (plus digit).Accepts t ↔ _
+      rw [plus_digit_accepts]
+      constructor
+      · rintro ⟨h1, h2⟩; exact ⟨[], t, rfl, by simp, h2, Or.inr h1⟩
+      · rintro ⟨a, b, h, ha, hb, hne⟩
+        cases a with
+        | nil =>
+          simp at h; subst h
+          exact ⟨by rcases hne with h | h; exact absurd rfl h; exact h, hb⟩
+        | cons a0 a' =>
+          simp at h
+          exact absurd h.1.symm (digit_ne_dot (ha a0 (by simp)))
+    · rw [if_neg hdot]
+      by_cases hd : IsDigit c
+      · rw [if_pos hd]
+        have hsplit := List.takeWhile_append_dropWhile (p := dset.has) (l := c :: t)
+        have htw : ∀ y ∈ (c :: t).takeWhile dset.has, IsDigit y := by
+          intro y hy; exact (has_digit y).1 (mem_takeWhile_sat _ _ y hy)
+        constructor
+        · intro h
+          cases hy : (c :: t).dropWhile dset.has with
+          | nil => rw [hy] at h; simp [Re.ends, lit] at h
+          | cons y z =>
+            rw [hy] at h
+            unfold lit at h
+            rw [ends_seq_set] at h
+            simp only [has_lit] at h
+            by_cases hyd : y = '.'
+            · subst hyd
+              rw [if_pos rfl] at h
+              have hz := (star_digit_accepts z).1 h
+              refine ⟨(c :: t).takeWhile dset.has, z, ?_, htw, hz, Or.inl ?_⟩
+              · rw [← hy]; exact hsplit.symm
+              · have : dset.has c = true := (has_digit c).2 hd
+                simp [List.takeWhile_cons, this]
+            · rw [if_neg hyd] at h; simp at h
+        · rintro ⟨a, b, h, ha, hb, _⟩
+          have hdrop : (c :: t).dropWhile dset.has = '.' :: b := by
+            rw [h, List.dropWhile_append_of_pos (fun y hy => (has_digit y).2 (ha y hy))]
+            have : dset.has '.' = false := by decide
+            simp [List.dropWhile_cons, this]
+          rw [hdrop]
+          unfold lit
+          rw [ends_seq_set]
+          simp only [has_lit, if_true]
+          exact (star_digit_accepts b).2 hb
+      · rw [if_neg hd]
+        constructor
+        · intro h; simp at h
+        · rintro ⟨a, b, h, ha, _, _⟩
+          cases a with
+          | nil => simp at h; exact absurd h.1 hdot
+          | cons a0 a' => simp at h; exact absurd (h.1 ▸ ha a0 (by simp)) hd
+
+theorem real_language (s : List Char) : realAst.Accepts s ↔ IsReal s := by
+  unfold realAst IsReal
+  rw [accepts_signOpt _ ureal_noSign]
+  simp only [ureal_language]
+
+example : realAst.Accepts "-12.5".toList := by decide
+example : realAst.Accepts ".5".toList := by decide
+example : realAst.Accepts "3.".toList := by decide
+example : ¬ realAst.Accepts "3".toList := by decide
+example : ¬ realAst.Accepts ".".toList := by decide
+example : ¬ realAst.Accepts "1.5.2".toList := by decide
 
 end PP.C18
